@@ -119,6 +119,9 @@ type rtspPub struct {
 	tracks []rtspref.Track
 	io     []rtspTrackIO
 	udp    bool
+	// alive (UDP): lal still holds the session. A datagram written to a port lal has already freed can reach a port
+	// that another lal instance on this machine (another shard / check) has just bound: never write to a freed port.
+	alive func() bool
 }
 
 func (p *rtspPub) close() {
@@ -247,6 +250,9 @@ func publishRtsp(rc *rtspref.Client, uri string, cd gen.Codecs, udp bool) (*rtsp
 func (p *rtspPub) write(track int, rtcp bool, b []byte) error {
 	t := p.io[track]
 	if p.udp {
+		if p.alive != nil && !p.alive() {
+			return fmt.Errorf("session gone")
+		}
 		c, port := t.rtp, t.rtpCh
 		if rtcp {
 			c, port = t.rtcp, t.rtcpCh
@@ -275,6 +281,12 @@ func (p *rtspPub) sendUnit(j int, seed uint32, who int) error {
 		}
 		ssrc := 0x11110000 + uint32(who)
 		pk := &rtpref.Packet{PT: 96, Seq: uint16(j), TS: uint32(j) * 3600, SSRC: ssrc, Marker: true, Payload: pl}
+		if p.udp && len(p.io) == 2 && j%2 == 1 {
+			// the same datagram also reaches the OTHER track's port (what a stale sender on a reused port, or a peer that
+			// sends both tracks from one socket, looks like): lal dispatches by payload type, so both read goroutines
+			// of the session now work on video packets
+			_ = p.write(1, false, pk.Marshal())
+		}
 		if err := p.write(ti, false, pk.Marshal()); err != nil {
 			return err
 		}
